@@ -243,6 +243,48 @@ def _closure_item(view, term):
     return None
 
 
+def _loc_shape_equal(a, b):
+    """closure-side and parent-side location terms: the same push_key / push_index steps with the same constant / own base"""
+    a, b = strip_refs(a), strip_refs(b)
+    if a[0] in ("push_key", "push_index") and b[0] == a[0] and len(a) >= 3 and len(b) >= 3:
+        ka, kb = strip_refs(a[2]), strip_refs(b[2])
+        return ka[0] == "const" and ka == kb and not (strip_refs(a[1])[0] in ("push_key", "push_index")) and not (strip_refs(b[1])[0] in ("push_key", "push_index"))
+    return False
+
+
+def _closure_arg_source(view):
+    """('child', location term of that child in the parent) when the closure is given to a Result combinator whose receiver is
+    a child call's result; ('user', None) for a user function's result; (None, None) when not read"""
+    parent_path = view.b.path.rsplit("::{closure", 1)[0]
+    parent = next((pb for pb in view.b.crate.bodies if pb.path == parent_path), None)
+    if parent is None:
+        return None, None
+    pv = View(parent)
+    pbs = BodySites(pv)
+    for bb, c in pv.calls():
+        if c.fn is None or c.name not in ("map_err", "or_else", "unwrap_or_else", "map_or_else"):
+            continue
+        t = pv.origin_call(bb)
+        if not any(strip_refs(a) and strip_refs(a)[0] == "agg" and strip_refs(a)[1] == "closure" and len(strip_refs(a)) > 3 and strip_refs(a)[3] == view.b.path for a in t[3]):
+            continue
+        recv = strip_refs(t[3][0]) if t[3] else None
+        hops = 0
+        while recv is not None and recv[0] == "call" and hops < 6:
+            hops += 1
+            for ch in pbs.children:
+                if ch["bb"] == recv[1]:
+                    return "child", (canon(pv, ch["loc"]) if ch["loc"] else None)
+            if any(u["bb"] == recv[1] for u in pbs.user_calls):
+                return "user", None
+            nm = call_name(pv, recv) or ""
+            if nm.split("::")[-1] in ("map", "map_err", "and_then", "or_else") and recv[3]:
+                recv = strip_refs(recv[3][0])
+                continue
+            break
+        return None, None
+    return None, None
+
+
 def c04_rules(view, bs, root_loc_names=("location", "deserr_location__"), root_view=None):
     out = []
     ob = 0
@@ -338,7 +380,21 @@ def c04_rules(view, bs, root_loc_names=("location", "deserr_location__"), root_v
                 # closure parameter (map_err closures of validate / container try_from) or user fn result
                 if view.b.kind == "Closure" or _from_user_call(view, other):
                     if not is_own_location(view, locc, root_loc_names):
-                        out.append(finding("C04.MERGE", view, "error of a container-level user function is not handed over at the container's own location", s.bb, fmt(locc)))
+                        f_ = finding("C04.MERGE", view, "error of a container-level user function is not handed over at the container's own location", s.bb, fmt(locc))
+                        if view.b.kind == "Closure" and not _from_user_call(view, other):
+                            # whose error the closure's argument is depends on the combinator it is given to: after a child call
+                            # (`T::deserialize_from_value(..).or_else(|e| ..)`) it is that child's, and belongs at the child's location
+                            src_kind, want_loc = _closure_arg_source(view)
+                            if src_kind == "child":
+                                if want_loc is not None and _loc_shape_equal(locc, want_loc):
+                                    continue
+                                f_.what = "the error of a child, handed over inside a closure, is not located where the child was examined"
+                                if want_loc is None:
+                                    f_.undecided = True
+                            elif src_kind is None:
+                                f_.what += " - what the closure's argument is was not read: not recognised (undecided)"
+                                f_.undecided = True
+                        out.append(f_)
                 else:
                     out.append(finding("C04.MERGE", view, "cannot establish where the merged error comes from", s.bb, fmt(other)))
                 continue
